@@ -298,9 +298,9 @@ theorem parse_mant {str : String} {p : Dec} (h : parse str = some p) : p.mant < 
     · exact parseGo_mant _ _ _ _ _ _ _ hl hf
 
 /-- the price-precision check is exact: an accepted price times `10^precision` is whole -/
-theorem badPrecision_exact {p : Dec} {prec : Nat} (hs : p.scale ≤ 28) (hm : p.mant < LIM)
-    (h : badPrecision p prec = some false) : (p.mant * 10 ^ prec) % 10 ^ p.scale = 0 := by
-  unfold badPrecision at h
+theorem badPrecisionPow_exact {p : Dec} {prec : Nat} (hs : p.scale ≤ 28) (hm : p.mant < LIM)
+    (h : badPrecisionPow p prec = some false) : (p.mant * 10 ^ prec) % 10 ^ p.scale = 0 := by
+  unfold badPrecisionPow at h
   cases hmul : mul p (ofNat (10 ^ prec)) with
   | none => simp [hmul] at h
   | some t =>
@@ -325,6 +325,19 @@ theorem badPrecision_exact {p : Dec} {prec : Nat} (hs : p.scale ≤ 28) (hm : p.
         rw [← hv, hq]; ac_rfl
       exact Nat.eq_of_mul_eq_mul_right (pow10_pos _) this
     rw [← hP]; exact Nat.mul_mod_left _ _
+
+theorem badPrecision_exact {p : Dec} {prec : Nat} (hs : p.scale ≤ 28) (hm : p.mant < LIM)
+    (h : badPrecision p prec = some false) : (p.mant * 10 ^ prec) % 10 ^ p.scale = 0 := by
+  unfold badPrecision at h
+  split at h
+  · have h1 := badPrecisionPow_exact hs hm h
+    have hle : prec % 4294967296 ≤ prec := Nat.mod_le _ _
+    obtain ⟨k, hk⟩ := Nat.dvd_of_mod_eq_zero h1
+    have hp : (10 : Nat) ^ prec = 10 ^ (prec % 4294967296) * 10 ^ (prec - prec % 4294967296) := by
+      rw [← Nat.pow_add]; congr 1; omega
+    rw [hp, ← Nat.mul_assoc, hk, Nat.mul_assoc]
+    exact Nat.mul_mod_right _ _
+  · cases h
 
 /-! ### `price × n` through `Dec.total` -/
 
